@@ -194,4 +194,14 @@ def xFailures (i : XIn) (obs : List Key) : List Key :=
   obs.filter (fun k => isGenPos k.2.2 && kernActsOnX i k.1 &&
     !obs.any (fun k' => k'.1 == k.1 && k'.2.1 == k.2.1 && (k'.2.2 == "kern" || k'.2.2 == "dist")))
 
+/-! ### variable fonts: the kerning of EVERY master takes part -/
+
+/-- what the property needs of the pair universe of a variable build: a kerning pair of ANY full (non-layer) source whose
+sides exist is among the pairs the writer builds lookups from - a script kerned only in a non-default master keeps its
+kerning (and so its `script` registration) - and nothing is invented. -/
+def holdsVarPairs (srcs : List KSrc) (known : List String) (obs : List KP) : Bool :=
+  srcs.all (fun s => s.layer ||
+    s.pairs.all (fun p => !(known.contains p.1 && known.contains p.2) || obs.contains p)) &&
+  obs.all (fun p => srcs.any (fun s => !s.layer && s.pairs.contains p))
+
 end Ufo2ft.C20
